@@ -126,34 +126,6 @@ icu_stubs! { #[kani::unwind(12)] pub(crate) fn f_firstset_letter() { f_firstset(
 //@ encodes: Atom::get_initial_character_class CharacterClass::contains
 icu_stubs! { #[kani::unwind(12)] pub(crate) fn f_firstset_caseless() { f_firstset('1') } }
 
-// ---- CharacterClass::is_disjoint: "may not give false positives" -------------
-//@ harness: f_is_disjoint_sound
-//@ props: C08
-//@ tier: thorough
-//@ timeout: 3400
-//@ cost: 3000
-//@ bound: CharacterClass{x}.is_disjoint(CharacterClass[lo,hi)) for ALL scalar values x and ALL ranges lo<hi (static inversion lists): a `true` answer implies x is not in [lo,hi); ranges longer than the 100-character scan threshold included
-//@ encodes: CharacterClass::is_disjoint CharacterClass::contains
-std_stubs! {
-    #[kani::unwind(105)]
-    pub(crate) fn f_is_disjoint_sound() {
-        let x: char = kani::any();
-        let lo: u32 = kani::any();
-        let hi: u32 = kani::any();
-        kani::assume(lo < hi && hi <= 0xD800);
-        let me = static_class(&[x as u32, x as u32 + 1]);
-        let other = static_class(&[lo, hi]);
-        let really_disjoint = !((x as u32) >= lo && (x as u32) < hi);
-        kani::cover!(!really_disjoint && (x as u32) > lo + 150, "overlap only beyond the scan threshold");
-        kani::cover!(really_disjoint && hi - lo < 50, "short disjoint range");
-        let d = me.is_disjoint(&other);
-        kani::assert(!d || really_disjoint, "C08.is-disjoint.no-false-positive");
-        kani::assert(d || !really_disjoint || hi - lo > 100, "C08.is-disjoint.short-disjoint-ranges-recognised");
-        std::mem::forget(me);
-        std::mem::forget(other);
-    }
-}
-
 // ---- ReCompiler::no_ambiguity: when may `X*` stop backtracking? -------------
 // Soundness conditions the non-backtracking rewrite relies on: never when the
 // next term can match the empty string (a repeat with min 0), never when the
